@@ -571,7 +571,15 @@ def call_sites(prog, only=None, any_callee=False):
             yield f, e, nm, ign
 
 
-def result_boundaries(prog, f):
+def result_tests(prog, f):
+    """callee key -> sorted list of the partitions its single tests make: each test of a result as the tuple of its
+    boundaries (`r < 0` -> (-1,), `!r` / `r == 0` / `r != 0` -> (-1, 1), `r > 0` -> (1,); boundaries as 2*x+1 integers)"""
+    per = {}
+    result_boundaries(prog, f, per_test=per)
+    return {k: sorted({tuple(sorted(t)) for t in v}) for k, v in per.items()}
+
+
+def result_boundaries(prog, f, per_test=None):
     """callee key -> sorted list of boundaries (x.5 values, as 2*x+1 integers) at which this function tests the results of its
     calls of that callee: `r < c` / `r >= c` cut below c, `r <= c` / `r > c` cut above c, `r == c`, `r != c`, `!r`, `if (r)` both"""
     from .facts import callee_name as _cn
@@ -623,6 +631,8 @@ def result_boundaries(prog, f):
     def add(keys, bs):
         for k in keys:
             out.setdefault(k, set()).update(bs)
+            if per_test is not None:
+                per_test.setdefault(k, []).append(frozenset(bs))
     for t in trees:
         for n in walk(t):
             if n.get("k") == "bin" and n.get("op") in ("<", "<=", ">", ">=", "==", "!="):
@@ -665,7 +675,10 @@ def run_resultclass(prog, ctx=None):
     of results - typically the zero or the error class - like its neighbour."""
     import json as _json, os as _os
     res = Result("RESULTCLASS")
-    ref = _json.load(open(_os.path.join(_os.path.dirname(_os.path.abspath(__file__)), "mustcheck.json"))).get("tests", {})
+    _tab = _json.load(open(_os.path.join(_os.path.dirname(_os.path.abspath(__file__)), "mustcheck.json")))
+    ref = _tab.get("tests", {})
+    refp = _tab.get("parts", {})
+    curparts = {}
     byname = {}
     for f in prog.functions.values():
         byname[f.file + ":" + f.qn] = f
@@ -684,6 +697,19 @@ def run_resultclass(prog, ctx=None):
             res.ob("%s:%s" % (k.split(":", 1)[1], nm), ok, f, f.line,
                    "" if ok else "%s tested the result of %s at the boundaries %s in the reference tree and tests it at %s now: results on the two sides of %s are no longer told apart" % (
                        f.qn, nm.lstrip("->"), [b / 2 for b in bs], [b / 2 for b in cur[nm]], [b / 2 for b in lost]))
+            # every single test of the reference still exists as a test that separates the same two sets of results: a test that
+            # was widened (`< 0` to `!= 0`) keeps all boundaries but sends a class of results (the positive answers) the other way
+            rp = refp.get(k, {}).get(nm)
+            if rp and ok:
+                curp = curparts.get(k)
+                if curp is None:
+                    curp = curparts[k] = result_tests(prog, f)
+                have = {tuple(t) for t in curp.get(nm, [])}
+                gone = [tuple(t) for t in rp if tuple(t) not in have]
+                ok2 = not gone
+                res.ob("%s:%s:tests" % (k.split(":", 1)[1], nm), ok2, f, f.line,
+                       "" if ok2 else "%s had a test of the result of %s that separated it at %s; no test does that now (tests cut at %s): a class of results changed sides" % (
+                           f.qn, nm.lstrip("->"), " and at ".join(str([b / 2 for b in t]) for t in gone), [[b / 2 for b in t] for t in sorted(have)]))
     if ref and matched < len(ref) * 3 // 4:
         raise Broken("RESULTCLASS: only %d of the %d functions of the reference table still exist" % (matched, len(ref)))
     return res
